@@ -20,9 +20,16 @@ func vPopulate(fs FS, n int) {
 	}
 	_ = fs.WriteFile("/single", []byte("single"), 0o644)
 	_ = fs.WriteFile("/a.zip", vBuildZip([]vEntry{{name: "x", content: []byte("x"), declared: -1}, {name: "y/z", content: []byte("z"), declared: -1}}), 0o644)
+	// an archive that is mostly directory entries (they take a different path through unzip)
+	var dirs []vEntry
+	for i := 0; i < 4*n; i++ {
+		dirs = append(dirs, vEntry{name: "e" + string(rune('a'+i/26)) + string(rune('a'+i%26)) + "/", declared: -1})
+	}
+	dirs = append(dirs, vEntry{name: "last", content: []byte("l"), declared: -1})
+	_ = fs.WriteFile("/dirs.zip", vBuildZip(dirs), 0o644)
 }
 
-const vNumCtxOps = 22
+const vNumCtxOps = 23
 
 // vCtxOp invokes the k-th context-accepting entry point.
 func vCtxOp(ctx context.Context, fs FS, k int) error {
@@ -73,6 +80,8 @@ func vCtxOp(ctx context.Context, fs FS, k int) error {
 		err = fs.ZipWithContext(ctx, "/r", "/out.zip")
 	case 21:
 		_, err = fs.UnzipWithContext(ctx, "/a.zip", "/unz")
+	case 22:
+		_, err = fs.UnzipWithContext(ctx, "/dirs.zip", "/unzd")
 	}
 	return err
 }
@@ -117,7 +126,7 @@ func VerifC09_MidRun() {
 	rec.reset()
 	ctx, cancel := context.WithCancel(context.Background())
 	defer cancel()
-	ops := []int{0, 2, 4, 5, 9, 11, 16, 17, 19, 20, 21}
+	ops := []int{0, 2, 4, 5, 9, 11, 16, 17, 19, 20, 21, 22}
 	k := ops[verif.Choice("op", len(ops))]
 	cancelAfter := verif.Len("cancelAfter", 1, 12)
 	count := 0
